@@ -1371,21 +1371,31 @@ func pendingPopRule(r *Rule, w *World, pkgRel, st, field string) {
 	n := 0
 	for _, fn := range pkgFuncs(w, pkgRel) {
 		for _, s := range fieldStores(fn, st, field) {
-			sl, ok := s.Val.(*ssa.Slice)
-			if !ok || !strings.HasSuffix(pathOf(sl.X), "."+field) {
+			var removed ssa.Value // index of the removed element
+			front := false
+			if sl, ok := s.Val.(*ssa.Slice); ok && strings.HasSuffix(pathOf(sl.X), "."+field) {
+				switch {
+				case sl.High != nil && sl.Low == nil:
+					removed = sl.High
+				case sl.Low != nil && sl.High == nil:
+					if k, isC := constInt(sl.Low); isC && k == 1 {
+						front = true
+					}
+				}
+			} else if dc, ok := s.Val.(*ssa.Call); ok && strings.HasPrefix(calleeName(dc), "slices.Delete") && len(dc.Call.Args) == 3 && strings.HasSuffix(pathOf(dc.Call.Args[0]), "."+field) {
+				// slices.Delete(list, i, i+1) removes element i
+				if b := asBinOp(dc.Call.Args[2], token.ADD); b != nil && b.X == dc.Call.Args[1] {
+					if one, isC := constInt(b.Y); isC && one == 1 {
+						removed = dc.Call.Args[1]
+					}
+				}
+				if removed == nil {
+					continue
+				}
+			} else {
 				continue
 			}
 			n++
-			var removed ssa.Value // index of the removed element
-			front := false
-			switch {
-			case sl.High != nil && sl.Low == nil:
-				removed = sl.High
-			case sl.Low != nil && sl.High == nil:
-				if k, isC := constInt(sl.Low); isC && k == 1 {
-					front = true
-				}
-			}
 			bad := ""
 			reads := 0
 			for _, in := range s.Block().Instrs {
